@@ -106,7 +106,7 @@ def history(rng, res, kinds_pool):
             if a < 0.6:
                 desc.append(aborted_txn(m, rng, res, conflict=rng.random() < 0.25))
             elif a < 0.8:
-                c = m.txn_block(rng.choice(list(m.tables)), rng.randrange(1, 4), True); desc.append("committed-txn")
+                c = m.txn_block(list(m.tables) if rng.random() < 0.4 else rng.choice(list(m.tables)), rng.randrange(1, 5), True); desc.append("committed-txn")
             else:
                 n = rng.choice(list(m.tables))
                 for _ in range(rng.randrange(1, 5)):
